@@ -65,6 +65,8 @@ type SimBucket struct {
 	objs  map[string]*blob
 	tombs map[string]tomb
 	Ops   []BucketOp
+	// shown: names each reader has been shown by a listing (monotonic reads)
+	shown map[string]map[string]bool
 	Cfg   FaultCfg
 
 	// partitioned nodes: all calls fail until the given simulated time
@@ -208,10 +210,13 @@ func (b *SimBucket) List(ctx context.Context, prefix string) (simpleblob.BlobLis
 		if !strings.HasPrefix(name, prefix) {
 			continue
 		}
-		if o.storedAt > asOf && !ownObject(t, name) {
+		if o.storedAt > asOf && !ownObject(t, name) && !b.shownTo(t, name) {
 			// Not yet visible in this (stale) listing. A node always sees
 			// the objects of its own instance name (read-your-writes: it
-			// talks to the site it wrote to; the lag is between sites).
+			// talks to the site it wrote to; the lag is between sites), and
+			// an object that an earlier listing already showed to this node
+			// does not disappear again while it exists (monotonic reads: no
+			// property quantifies over listings that go back in time).
 			continue
 		}
 		bl = append(bl, simpleblob.Blob{Name: name, Size: int64(len(o.data))})
@@ -232,6 +237,7 @@ func (b *SimBucket) List(ctx context.Context, prefix string) (simpleblob.BlobLis
 	bl.Sort()
 	for _, e := range bl {
 		names = append(names, e.Name)
+		b.noteShown(t, e.Name)
 	}
 	b.record(t, BucketOp{Start: start, StartSeq: startSeq, Op: "list", Name: prefix, Names: names, Fault: fault})
 	return bl, nil
@@ -341,6 +347,33 @@ func (b *SimBucket) Delete(ctx context.Context, name string) error {
 }
 
 // ownObject reports if the object name belongs to the calling node's instance.
+// reader identifies who is listing: a node (across its incarnations) or a
+// driver-side task.
+func reader(t *Task) string {
+	if t == nil {
+		return ""
+	}
+	if t.Node != nil {
+		return "node:" + t.Node.Name
+	}
+	return "task:" + t.ID
+}
+
+func (b *SimBucket) shownTo(t *Task, name string) bool {
+	return b.shown[reader(t)][name]
+}
+
+func (b *SimBucket) noteShown(t *Task, name string) {
+	r := reader(t)
+	if b.shown == nil {
+		b.shown = map[string]map[string]bool{}
+	}
+	if b.shown[r] == nil {
+		b.shown[r] = map[string]bool{}
+	}
+	b.shown[r][name] = true
+}
+
 func ownObject(t *Task, name string) bool {
 	if t == nil || t.Node == nil {
 		return false
